@@ -113,6 +113,9 @@ def part_a(ctx, rnd):
     if nd:
         ctx.drift.append("(a) %d results differ from the prediction of NodeSize.tla" % nd)
     acc = ctx.judge(SD, "NodeSizeTrace", "Judge_NodeSize.cfg", events, scenario_of=by_id, timeout=1800)
+    # the code's scratch arithmetic to the byte is more than the statement says: drift only
+    ctx.judge_as_drift("a_exact_scratch_arithmetic", SD, "NodeSizeTrace", "Judge_NodeSize_exact.cfg", events,
+                       scenario_of=by_id, timeout=1800, max_rejects=5)
     ctx.extra["a_inputs_model"] = nmodel
     ctx.extra["a_inputs_random"] = nrand
     ctx.extra["a_traces_accepted"] = acc
